@@ -177,7 +177,7 @@ func (c *scriptConn) Read(p []byte) (int, error) {
 			l.add(Ev{"ev": "cancel"})
 			c.cancel()
 			continue
-		case "wslow":
+		case "wslow", "rslow":
 			// (see Write) the reply begins 5/6 N ms after the request was taken
 			c.pos++
 			time.Sleep(time.Duration(st.N*5/6) * time.Millisecond)
@@ -277,6 +277,11 @@ type exchClient struct {
 }
 
 func newExchClient(kind string, hooks bool, timeoutMs int, serialNil bool) *exchClient {
+	return newExchClientW(kind, hooks, timeoutMs, timeoutMs, serialNil)
+}
+
+// newExchClientW: read and write timeout configured separately
+func newExchClientW(kind string, hooks bool, timeoutMs, writeTimeoutMs int, serialNil bool) *exchClient {
 	ec := &exchClient{kind: kind, hooks: hooks}
 	ec.conn = &scriptConn{log: &exchLog{}, serial: kind == "serial"}
 	var hk modbus.ClientHooks
@@ -286,7 +291,7 @@ func newExchClient(kind string, hooks bool, timeoutMs int, serialNil bool) *exch
 	timeout := time.Duration(timeoutMs) * time.Millisecond
 	switch kind {
 	case "tcp", "rtu", "tcpgen", "gendef":
-		conf := modbus.ClientConfig{ReadTimeout: timeout, WriteTimeout: timeout,
+		conf := modbus.ClientConfig{ReadTimeout: timeout, WriteTimeout: time.Duration(writeTimeoutMs) * time.Millisecond,
 			DialContextFunc: func(ctx context.Context, address string) (net.Conn, error) {
 				switch ec.dialMode {
 				case "connerr":
@@ -350,6 +355,12 @@ func runExchange(c *exchCase, timeoutMs int) []Ev {
 		// taken; the total READ timeout is 4/3 N ms - longer than the reply takes, shorter than write + reply together
 		timeoutMs = c.Script[0].N * 4 / 3
 	}
+	if len(c.Script) > 0 && c.Script[0].K == "rslow" {
+		// a device that takes its time: the reply begins 5/6 N ms after the request; READ timeout 4/3 N ms, WRITE timeout
+		// 1/3 N ms - the two are different settings, the reply is within the one that is about replies
+		ec := newExchClientW(c.Client, c.Hooks == 1, c.Script[0].N*4/3, c.Script[0].N/3, c.Fault == "notconnected")
+		return ec.run(c, c.Script[0].N*4/3)
+	}
 	ec := newExchClient(c.Client, c.Hooks == 1, timeoutMs, c.Fault == "notconnected")
 	return ec.run(c, timeoutMs)
 }
@@ -381,6 +392,11 @@ func (ec *exchClient) run(c *exchCase, timeoutMs int) []Ev {
 		"script": c.Script, "fault": c.Fault, "hooks": c.Hooks, "pair": c.Pair, "timeoutMs": timeoutMs, "seqpos": c.SeqPos, "seqlen": c.SeqLen})
 
 	ctx, cancel := context.WithCancel(context.Background())
+	if c.Fault == "ctxdeadline" {
+		// the caller's own deadline is shorter than the client's total read timeout
+		cancel()
+		ctx, cancel = context.WithTimeout(context.Background(), time.Duration(timeoutMs/4)*time.Millisecond)
+	}
 	defer cancel()
 	script := make([]step, len(c.Script))
 	copy(script, c.Script)
